@@ -84,7 +84,7 @@ fn main() {
             let prog = model::Program::from_json("file", f, Some(txt), json).unwrap();
             let picks: Vec<u32> = args[3..].iter().filter_map(|a| a.parse().ok()).collect();
             host::set_quiet(false);
-            let out = host::run_case_thread(1, 7, 1_000_000, 60, move || {
+            let out = host::run_case_thread(1, 7, 1_000_000, 60, 64, move || {
                 let mut rng = rng::Rng::new(1);
                 let mut cfg = props::default_host(&prog, &mut rng);
                 cfg.handler = true; cfg.fallbacks = true;
@@ -137,7 +137,7 @@ fn main() {
                         bytes += p.json.len();
                         let p2 = p.clone();
                         let seed = rng.next_u64();
-                        let st = host::run_case_thread(seed, 7, 200_000, 60, move || {
+                        let st = host::run_case_thread(seed, 7, 200_000, 60, 64, move || {
                             let mut rng = rng::Rng::new(seed);
                             let cfg = props::default_host(&p2, &mut rng);
                             let mut out: Vec<String> = vec![];
